@@ -312,6 +312,100 @@ def long_weight(rng):
     return None
 
 
+def fresh_module_replay(rng):
+    """a fused model with a channel of ANY module class is the conjunction of what the modules compute - where "the module"
+    is a freshly constructed instance that is only given the channel's current weights, so nothing a channel module keeps
+    between calls (a cached normaliser, a counter that only its own training loop advances) can enter the reference.  The
+    whole training call is replayed sample by sample: activation = gamma-weighted sum, candidates by falling activation,
+    first one every channel accepts learns channel-wise, else a new category; labels and weights must agree."""
+    import operator
+    import artlib
+    kind = rng.choice(["Gauss", "Gauss", "Bayes", "Hyper", "Ellip", "ART2A", "Quad", "ART1"])
+    d = 2
+    p = K.gen_params(rng, kind, d)
+    if kind == "ART1" and p["L"] == 1.0:
+        p["L"] = 2.0
+    if kind in ("Hyper", "Ellip") and p["rho"] == 0.0 and p["alpha"] == 0.0:
+        p["alpha"] = 1e-3
+    n = rng.randrange(6, 30)
+    X1 = K.gen_data(rng, kind, n, d)
+    Xf = K.gen_data(rng, "Fuzzy", n, 1)
+    gam = rng.choice([[0.5, 0.5], [0.25, 0.75], [0.875, 0.125]])
+    fz = dict(rho=rng.choice([0.0, 0.5, 0.75]), alpha=1e-3, beta=1.0)
+    X = np.hstack([X1, Xf])
+    rep = {"kind": kind, "params": {k: (np.asarray(v).tolist() if isinstance(v, np.ndarray) else v) for k, v in p.items()}, "fuzzy": fz, "gamma": gam, "X": X.tolist()}
+    how = rng.choice(["fit", "partial_fit x2"])
+    rep["how"] = how
+
+    def fresh(ws):
+        a = K.make(kind, p)
+        a.dim_ = d
+        a.W = [np.array(w, dtype=float) for w in ws]
+        b = artlib.FuzzyART(fz["rho"], fz["alpha"], fz["beta"])
+        b.dim_, b.dim_original = 2, 1.0
+        return a, b
+    try:
+        est = artlib.FusionART([K.make(kind, p), artlib.FuzzyART(fz["rho"], fz["alpha"], fz["beta"])], gam, [d, 2])
+        with np.errstate(all="ignore"), C.time_limit(20):
+            if how == "fit":
+                est.fit(X)
+            else:
+                h = n // 2
+                est.partial_fit(X[:h])
+                est.partial_fit(X[h:])
+            # the reference
+            Wa, Wb, labels = [], [], []
+            for x in X:
+                xa, xb = x[:d], x[d:]
+                a, b = fresh(Wa)
+                cand = []
+                for c in range(len(Wa)):
+                    ta, ca = a.category_choice(xa, a.W[c], params=a.params)
+                    tb, cb = b.category_choice(xb, Wb[c], params=b.params)
+                    cand.append((gam[0] * float(ta) + gam[1] * float(tb), c, ca, cb))
+                win = None
+                for T, c, ca, cb in sorted((q for q in cand if not np.isnan(q[0])), key=lambda q: (-q[0], q[1])):
+                    oka, ca = a.match_criterion_bin(xa, a.W[c], params=a.params, cache=ca, op=operator.ge)
+                    okb, cb = b.match_criterion_bin(xb, Wb[c], params=b.params, cache=cb, op=operator.ge)
+                    if oka and okb:
+                        win = (c, ca, cb)
+                        break
+                if win is None:
+                    Wa.append(np.asarray(a.new_weight(xa, a.params), dtype=float))
+                    Wb.append(np.asarray(b.new_weight(xb, b.params), dtype=float))
+                    labels.append(len(Wa) - 1)
+                else:
+                    c, ca, cb = win
+                    Wa[c] = np.asarray(a.update(xa, a.W[c], a.params, cache=ca), dtype=float)
+                    Wb[c] = np.asarray(b.update(xb, Wb[c], b.params, cache=cb), dtype=float)
+                    labels.append(c)
+            got = [int(v) for v in est.labels_]
+            if not all(np.all(np.isfinite(w)) for w in Wa):
+                return None
+            if got != labels:
+                k0 = next(i for i in range(min(len(got), len(labels))) if got[i] != labels[i]) if len(got) == len(labels) else -1
+                return {"signature": "FusionART/fresh-module-replay", "text": f"FusionART([{kind}, FuzzyART]).{how}: labels {got} differ from the channel-wise replay with freshly constructed modules {labels} (first at sample {k0})", "replay": rep}
+            for c, w in enumerate(est.W):
+                ref = np.concatenate([Wa[c], Wb[c]])
+                if len(w) != len(ref) or not np.allclose(np.asarray(w, dtype=float), ref, rtol=1e-9, atol=1e-12):
+                    return {"signature": "FusionART/fresh-module-replay", "text": f"FusionART([{kind}, FuzzyART]).{how}: weight of category {c} differs from the channel-wise replay with freshly constructed modules", "replay": rep}
+            # and the public activation of the fitted model, against fresh modules
+            a, b = fresh(Wa)
+            for x in X[:3]:
+                for c, w in enumerate(est.W[:4]):
+                    T, _ = est.category_choice(x, w, params=est.params)
+                    ta, _ = a.category_choice(x[:d], a.W[c], params=a.params)
+                    tb, _ = b.category_choice(x[d:], Wb[c], params=b.params)
+                    want = gam[0] * float(ta) + gam[1] * float(tb)
+                    if np.isfinite(want) and not np.isclose(float(T), want, rtol=1e-9, atol=1e-12):
+                        return {"signature": "FusionART/fresh-module-replay", "text": f"FusionART([{kind}, FuzzyART]): activation {float(T)!r} of category {c} is not the gamma-weighted sum {want!r} of what freshly constructed modules compute on the channel weights", "replay": rep}
+    except (AssertionError, TimeoutError):
+        return None
+    except Exception as e:
+        return {"signature": "FusionART/fresh-module-replay-raises", "text": f"{kind} channel: {type(e).__name__}: {str(e)[:80]}", "replay": rep}
+    return None
+
+
 def main():
     tier = sys.argv[1] if len(sys.argv) > 1 else "quick"
     seed = C.seed_from_env()
@@ -335,7 +429,7 @@ def main():
         stats["with_veto"] += 1 if ops[0].get("veto") else 0
         fails.extend(oracle(f, ops))
     for _ in range(60 if tier == "quick" else 600):
-        for g in (bare_vs_one_channel, supervised_one_channel, permutation, long_weight, dtype_variants, dtype_variants_any, fused_weight_assigned_back):
+        for g in (bare_vs_one_channel, supervised_one_channel, permutation, long_weight, dtype_variants, dtype_variants_any, fused_weight_assigned_back, fresh_module_replay, fresh_module_replay):
             r = g(rng)
             if r:
                 fails.append(r)
